@@ -100,6 +100,21 @@ func DecodePureDKG(data []byte) (*puredkg.PureDKG, error) {
 	if err != nil {
 		return nil, err
 	}
+	// gob cannot represent the nil entries of the Commitments and Evals slices (no message
+	// received from that keyper yet): they are decoded as an empty Gammas value and as zero.
+	// puredkg tells "nothing received yet" from "already received" by the nil check, so restore
+	// nil. Otherwise every commitment and evaluation that arrives after the state has been
+	// reloaded from the database is rejected as a duplicate.
+	for i, c := range p.Commitments {
+		if c != nil && len(*c) == 0 {
+			p.Commitments[i] = nil
+		}
+	}
+	for i, e := range p.Evals {
+		if e != nil && e.Sign() == 0 {
+			p.Evals[i] = nil
+		}
+	}
 	return p, nil
 }
 
